@@ -86,8 +86,11 @@ def gen_query(rng, with_keyed):
     tabs = rng.sample(names, min(ntab, len(names)))
     icols = int_cols(tabs)
     frm = tabs[0]
+    # a query uses either explicit joins or comma joins: `t1, t2 left join t3 on t1.a = …` binds
+    # the ON clause to a FROM item outside the join (the binder accepts it; not this check's subject)
+    comma_style = rng.random() < 0.2
     for k, t in enumerate(tabs[1:], 1):
-        jt = rng.choice(["join", "join", "left join", "right join", "full join", ","])
+        jt = "," if comma_style else rng.choice(["join", "join", "left join", "right join", "full join"])
         left_i, right_i = int_cols(tabs[:k]), int_cols([t])
         if jt == ",":
             frm += ", " + t
